@@ -64,3 +64,19 @@ pub open spec fn mp4a_at(d: Seq<u8>, q: int, size: u64, b: Mp4aBox) -> bool {
     &&& b.channelcount == be16(d, q + 16) && b.samplesize == be16(d, q + 18) && b.samplerate.0.numer == be32(d, q + 24)
     &&& (b.esds is Some <==> first_esds(d, mp4a_children_start(d, q), q - 8 + size) is Some)
 }
+
+// ---- AudioSpecificConfig (ISO/IEC 14496-3 1.6.2.1), the two-byte form the muxer writes:
+//      audioObjectType(5) samplingFrequencyIndex(4) channelConfiguration(4) GASpecificConfig flags(3) = 0
+pub open spec fn asc_byte0(profile: u8, freq: u8) -> u8 { ((profile << 3) | (freq >> 1)) as u8 }
+pub open spec fn asc_byte1(freq: u8, chan: u8) -> u8 { (((freq & 1) << 7) | (chan << 3)) as u8 }
+pub open spec fn asc_freq(a: u8, b: u8) -> u8 { (((a & 7) << 1) | (b >> 7)) as u8 }
+pub open spec fn asc_chan(b: u8) -> u8 { ((b >> 3) & 0xf) as u8 }
+/// decode . encode = identity on the encodable domain (object types 1..30, frequency index below the escape value 15)
+pub proof fn lemma_asc_roundtrip(p: u8, f: u8, c: u8)
+    requires 1 <= p < 31, f < 15, c < 16
+    ensures aot_of_bits(asc_byte0(p, f), asc_byte1(f, c)) == p, asc_freq(asc_byte0(p, f), asc_byte1(f, c)) == f, asc_chan(asc_byte1(f, c)) == c
+{
+    assert(((((p << 3) | (f >> 1)) as u8) >> 3) == p) by(bit_vector) requires p < 31, f < 15;
+    assert((((((p << 3) | (f >> 1)) as u8) & 7) << 1) | ((((f & 1) << 7) | (c << 3)) as u8 >> 7) == f) by(bit_vector) requires p < 31, f < 15, c < 16;
+    assert((((((f & 1) << 7) | (c << 3)) as u8) >> 3) & 0xf == c) by(bit_vector) requires f < 15, c < 16;
+}
